@@ -215,14 +215,20 @@ def nBucket (n : Nat) : String :=
   if n ≤ 3 then toString n else if n ≤ 6 then "4-6" else if n ≤ 12 then "7-12" else "13+"
 
 def handleOp (algo : String) (inp out : List String) : String :=
-  let pin : P (Rat × Geom) := do let e ← rat; let g ← geometry; pure (e, g)
+  -- the tolerance +∞ (`h7ff0000000000000`) is a legal f64 ≥ 0: it stands for "larger than every distance and area of the input"
+  let pin : P (Option Rat × Geom) := do
+    let t ← peek?
+    let e ← (if t == some "h7ff0000000000000" then (do let _ ← tok; pure none) else (do let e ← rat; pure (some e)))
+    let g ← geometry; pure (e, g)
   match P.run pin inp with
   | none => "ERR parse-input"
-  | some (eps, g) =>
+  | some (epsO, g) =>
     match comps g with
     | none => "ERR unsupported-geometry"
     | some ci =>
       let allCs := ci.flatMap (·.2)
+      let maxAbs := allCs.foldl (fun m c => max m (max (rabs c.x) (rabs c.y))) 0
+      let eps : Rat := match epsO with | some e => e | none => 8 * (maxAbs + 1) * (maxAbs + 1)
       if !exactRegime allCs then skip "inexact-regime" else
       if algo == "rdp" && eps > 0 && ci.any (fun c => rdpNearTie (eps * eps) c.2.zipIdx) then
         skip "near-tie" else
@@ -232,7 +238,7 @@ def handleOp (algo : String) (inp out : List String) : String :=
         | some (mg, mi) => mg.str ++ " " ++ idxStr mi
       let nIn := allCs.length
       let nMax := (ci.map (·.2.length)).foldl max 0
-      let epsCls := if eps ≤ 0 then "nonpos" else "pos"
+      let epsCls := if epsO.isNone then "infinite" else if eps ≤ 0 then "nonpos" else "pos"
       let baseCls := "algo=" ++ algo ++ " type=" ++ ((g.str.splitOn " ").head!) ++ " n=" ++ nBucket nMax ++
         " eps=" ++ epsCls
       if out == ["panic"] then
